@@ -1,5 +1,5 @@
 (* Proofs/Radix_proofs.v — facts about Model/Radix.v *)
-From RJ Require Import Base.Outcome Base.F64 Model.Radix.
+From RJ Require Import Base.Outcome Base.F64 Model.Radix Proofs.Radix_float_proofs.
 From Coq Require Import Lia Floats.SpecFloat.
 Local Open Scope N_scope.
 
@@ -26,3 +26,229 @@ Lemma radix_orig_misrounds :
   parse_num_radix_orig 16 w_tie = Ok (f_of_bits 0x47f0000000000002) /\
   f_of_N (hex_value w_tie) = f_of_bits 0x47f0000000000003.
 Proof. vm_compute. split; reflexivity. Qed.
+
+(* ---- the function as it stands now ------------------------------------------ *)
+
+Definition valid (radix c : N) : Prop := to_digit radix c <> None.
+
+(* the integer denoted by a string of valid digits (most significant first) *)
+Fixpoint value_acc (radix : N) (s : str) (acc : N) : N :=
+  match s with
+  | [] => acc
+  | c :: r => match to_digit radix c with
+              | Some d => value_acc radix r (acc * radix + d)
+              | None => acc
+              end
+  end.
+Definition value (radix : N) (s : str) : N := value_acc radix s 0.
+
+Lemma to_digit_lt radix c d : to_digit radix c = Some d -> d < radix.
+Proof.
+  unfold to_digit.
+  destruct (if (48 <=? c) && (c <=? 57) then Some (c - 48)
+            else if (97 <=? c) && (c <=? 122) then Some (c - 97 + 10)
+            else if (65 <=? c) && (c <=? 90) then Some (c - 65 + 10) else None) as [v|]; [|discriminate].
+  destruct (v <? radix) eqn:E; [|discriminate]. intros H. injection H as <-. now apply N.ltb_lt.
+Qed.
+
+Lemma acc_u128_ok radix : 0 < radix -> forall s acc,
+  Forall (valid radix) s -> (acc + 1) * radix ^ N.of_nat (length s) <= u128_lim ->
+  acc_u128 radix s acc = Ok (value_acc radix s acc) /\
+  (value_acc radix s acc + 1) <= (acc + 1) * radix ^ N.of_nat (length s).
+Proof.
+  intros Hr. induction s as [|c r IH]; intros acc Hv Hb.
+  - cbn. split; [reflexivity|]. lia.
+  - inversion Hv as [|? ? Hc Hr']; subst. unfold valid in Hc.
+    cbn [acc_u128 value_acc]. destruct (to_digit radix c) as [d|] eqn:Ed; [|contradiction].
+    pose proof (to_digit_lt _ _ _ Ed) as Hd.
+    cbn [length] in Hb. rewrite Nat2N.inj_succ, N.pow_succ_r' in Hb.
+    assert (Hstep : (acc * radix + d + 1) * radix ^ N.of_nat (length r) <= (acc + 1) * (radix * radix ^ N.of_nat (length r))).
+    { rewrite N.mul_assoc. apply N.mul_le_mono_r. lia. }
+    assert (Hpos : 0 < radix ^ N.of_nat (length r)) by (apply N.neq_0_lt_0, N.pow_nonzero; lia).
+    replace (u128_lim <=? acc * radix + d) with false.
+    2:{ symmetry. apply N.leb_gt. nia. }
+    destruct (IH (acc * radix + d) Hr') as [E B]; [lia|].
+    split; [exact E|]. cbn [length]. rewrite Nat2N.inj_succ, N.pow_succ_r'. lia.
+Qed.
+
+(* the digits after the first chunk *)
+Lemma scan_rest_ok radix : forall s extra sticky, Forall (valid radix) s ->
+  exists st, scan_rest radix s extra sticky = Ok ((extra + length s)%nat, st).
+Proof.
+  induction s as [|c r IH]; intros extra sticky Hv.
+  - exists sticky. cbn. now rewrite Nat.add_0_r.
+  - inversion Hv as [|? ? Hc Hr]; subst. unfold valid in Hc. cbn [scan_rest].
+    destruct (to_digit radix c) as [d|]; [|contradiction].
+    destruct (IH (S extra) (sticky || negb (d =? 0))%bool Hr) as [st E]. exists st. rewrite E.
+    cbn [length]. f_equal. f_equal. lia.
+Qed.
+
+Lemma scan_rest_invalid radix : forall pre c post extra sticky,
+  Forall (valid radix) pre -> to_digit radix c = None ->
+  scan_rest radix (pre ++ c :: post) extra sticky = Err (RInvalidDigit c).
+Proof.
+  induction pre as [|x pre IH]; intros c post extra sticky Hv Hc.
+  - cbn [app scan_rest]. now rewrite Hc.
+  - inversion Hv as [|? ? Hx Hpre]; subst. unfold valid in Hx. cbn [app scan_rest].
+    destruct (to_digit radix x) as [d|]; [|contradiction]. now apply IH.
+Qed.
+
+Lemma split_chars_app s n : fst (split_chars s n) ++ snd (split_chars s n) = s.
+Proof.
+  revert s. induction n as [|n IH]; intros s; [destruct s; reflexivity|].
+  destruct s as [|c r]; [reflexivity|]. cbn [split_chars fst snd app]. now rewrite IH.
+Qed.
+
+Lemma split_chars_length s n : (length (fst (split_chars s n)) <= n)%nat.
+Proof.
+  revert s. induction n as [|n IH]; intros s; [destruct s; cbn; lia|].
+  destruct s as [|c r]; [cbn; lia|]. cbn [split_chars fst length]. specialize (IH r). lia.
+Qed.
+
+Lemma split_chars_short s n : (length s <= n)%nat -> split_chars s n = (s, []).
+Proof.
+  revert s. induction n as [|n IH]; intros s H.
+  - destruct s; [reflexivity|cbn in H; lia].
+  - destruct s as [|c r]; [reflexivity|]. cbn [split_chars]. rewrite IH by (cbn in H; lia). reflexivity.
+Qed.
+
+Definition radix_ok (radix : N) : Prop := radix = 8 \/ radix = 16.
+
+Lemma chunk_bound radix : radix_ok radix -> radix ^ max_digits_128 radix <= u128_lim.
+Proof. intros [->| ->]; vm_compute; discriminate. Qed.
+
+Lemma first_chunk_ok radix s : radix_ok radix -> Forall (valid radix) s ->
+  (length s <= N.to_nat (max_digits_128 radix))%nat ->
+  acc_u128 radix s 0 = Ok (value radix s) /\ value radix s < radix ^ N.of_nat (length s).
+Proof.
+  intros Hr Hv Hl.
+  assert (Hpos : 0 < radix) by (destruct Hr as [->| ->]; reflexivity).
+  destruct (acc_u128_ok radix Hpos s 0 Hv) as [E B].
+  - rewrite N.add_0_l, N.mul_1_l. etransitivity; [|apply (chunk_bound radix Hr)].
+    apply N.pow_le_mono_r; lia.
+  - split; [exact E|]. unfold value. lia.
+Qed.
+
+(* 1. no input makes the function panic *)
+Theorem radix_no_panic : forall radix s, radix_ok radix -> is_panic (parse_num_radix radix s) = false.
+Proof.
+  intros radix s Hr. unfold parse_num_radix. destruct s as [|c0 s0]; [reflexivity|].
+  set (t := trim_zeros (c0 :: s0)).
+  set (k := N.to_nat (max_digits_128 radix)).
+  pose proof (split_chars_length t k) as Hl.
+  assert (Hpos : 0 < radix) by (destruct Hr as [->| ->]; reflexivity).
+  (* the first chunk either contains an invalid digit or is accumulated exactly *)
+  assert (Hacc : forall u acc, (acc + 1) * radix ^ N.of_nat (length u) <= u128_lim ->
+                               is_panic (acc_u128 radix u acc) = false).
+  { induction u as [|x u IH]; intros acc Hb; [reflexivity|]. cbn [acc_u128].
+    destruct (to_digit radix x) as [d|] eqn:Ed; [|reflexivity].
+    pose proof (to_digit_lt _ _ _ Ed) as Hd.
+    cbn [length] in Hb. rewrite Nat2N.inj_succ, N.pow_succ_r' in Hb.
+    assert (Hp : 0 < radix ^ N.of_nat (length u)) by (apply N.neq_0_lt_0, N.pow_nonzero; lia).
+    replace (u128_lim <=? acc * radix + d) with false by (symmetry; apply N.leb_gt; nia).
+    apply IH. nia. }
+  specialize (Hacc (fst (split_chars t k)) 0).
+  destruct (acc_u128 radix (fst (split_chars t k)) 0) as [n| | |] eqn:E; cbn [obind]; try reflexivity.
+  - assert (Hs : forall u a b, match scan_rest radix u a b with Ok _ | Err _ => True | _ => False end).
+    { induction u as [|x u IH]; intros a b; cbn [scan_rest]; [exact I|].
+      destruct (to_digit radix x); [apply IH|exact I]. }
+    specialize (Hs (snd (split_chars t k)) 0%nat false).
+    destruct (scan_rest radix (snd (split_chars t k)) 0 false) as [[ex st]| | |];
+      cbn [obind]; try contradiction; try reflexivity.
+    destruct (f_is_finite _); reflexivity.
+  - cbn [is_panic] in Hacc. assert (true = false); [|discriminate]. apply Hacc.
+    rewrite N.add_0_l, N.mul_1_l. etransitivity; [|apply (chunk_bound radix Hr)].
+    apply N.pow_le_mono_r; [lia|].
+    replace (max_digits_128 radix) with (N.of_nat k) by (unfold k; apply N2Nat.id). lia.
+Qed.
+
+(* 2. an invalid digit is reported exactly when there is one, and it is the first one *)
+Theorem radix_invalid_digit_iff : forall radix s c, radix_ok radix -> s <> [] ->
+  (parse_num_radix radix s = Err (RInvalidDigit c) <->
+   exists pre post, trim_zeros s = pre ++ c :: post /\ Forall (valid radix) pre /\ to_digit radix c = None).
+Proof.
+  intros radix s c Hr Hs.
+  assert (Hpos : 0 < radix) by (destruct Hr as [->| ->]; reflexivity).
+  unfold parse_num_radix. destruct s as [|c0 s0]; [contradiction|].
+  set (t := trim_zeros (c0 :: s0)). set (k := N.to_nat (max_digits_128 radix)).
+  pose proof (split_chars_app t k) as Happ. pose proof (split_chars_length t k) as Hlen.
+  set (hd := fst (split_chars t k)) in *. set (tl := snd (split_chars t k)) in *.
+  (* decompose t at its first invalid digit, if any *)
+  assert (Hdec : forall u, Forall (valid radix) u \/
+                           exists pre x post, u = pre ++ x :: post /\ Forall (valid radix) pre /\ to_digit radix x = None).
+  { induction u as [|x u [IH|[pre [y [post [-> [Hp Hy]]]]]]].
+    - left. constructor.
+    - destruct (to_digit radix x) eqn:E.
+      + left. constructor; [unfold valid; congruence|assumption].
+      + right. exists [], x, u. repeat split; [constructor|assumption].
+    - destruct (to_digit radix x) eqn:E.
+      + right. exists (x :: pre), y, post. repeat split; [constructor; [unfold valid; congruence|assumption]|assumption].
+      + right. exists [], x, (pre ++ y :: post). repeat split; [constructor|assumption]. }
+  assert (Huniq : forall pre1 x1 post1 pre2 x2 post2,
+             pre1 ++ x1 :: post1 = pre2 ++ x2 :: post2 ->
+             Forall (valid radix) pre1 -> to_digit radix x1 = None ->
+             Forall (valid radix) pre2 -> to_digit radix x2 = None -> x1 = x2).
+  { induction pre1 as [|a pre1 IH]; intros x1 post1 pre2 x2 post2 E H1 Hx1 H2 Hx2.
+    - destruct pre2 as [|b pre2]; [now injection E|].
+      injection E as -> _. inversion H2 as [|? ? Hb _]; subst. contradiction.
+    - destruct pre2 as [|b pre2].
+      + injection E as -> _. inversion H1 as [|? ? Ha _]; subst. contradiction.
+      + injection E as -> E. inversion H1; inversion H2; subst. eapply IH; eauto. }
+  destruct (Hdec hd) as [Hhd|[pre [x [post [Ehd [Hpre Hx]]]]]].
+  - (* first chunk valid *)
+    destruct (first_chunk_ok radix hd Hr Hhd) as [E _]; [unfold k in Hlen; lia|]. rewrite E. cbn [obind].
+    destruct (Hdec tl) as [Htl|[pre [x [post [Etl [Hpre Hx]]]]]].
+    + destruct (scan_rest_ok radix tl 0 false Htl) as [st E2]. rewrite E2. cbn [obind fst snd].
+      split.
+      * destruct (f_is_finite _); discriminate.
+      * intros [pre [post [Et [Hp Hc]]]]. exfalso.
+        assert (Hall : Forall (valid radix) t) by (rewrite <- Happ; apply Forall_app; split; assumption).
+        fold t in Et. rewrite Et in Hall. apply Forall_app in Hall. destruct Hall as [_ Hall].
+        inversion Hall as [|? ? Hcv _]; subst. contradiction.
+    + rewrite Etl, scan_rest_invalid by assumption. cbn [obind]. split.
+      * intros H. injection H as <-. exists (hd ++ pre), post. fold t. rewrite <- Happ, Etl, <- app_assoc.
+        repeat split; [apply Forall_app; split; assumption|assumption].
+      * intros [pre2 [post2 [Et [Hp Hc]]]]. f_equal. f_equal. fold t in Et. rewrite <- Happ, Etl in Et.
+        rewrite app_assoc in Et. eapply Huniq; [exact Et| | | |]; try assumption. apply Forall_app; split; assumption.
+  - (* invalid digit inside the first chunk *)
+    assert (Hb : (0 + 1) * radix ^ N.of_nat (length pre) <= u128_lim).
+    { rewrite N.add_0_l, N.mul_1_l. etransitivity; [|apply (chunk_bound radix Hr)].
+      apply N.pow_le_mono_r; [lia|]. rewrite Ehd, app_length in Hlen. unfold k in Hlen. lia. }
+    assert (E : acc_u128 radix hd 0 = Err (RInvalidDigit x)).
+    { rewrite Ehd. clear - Hpre Hx Hb Hpos. revert Hb. generalize 0 as acc.
+      induction pre as [|a pre IH]; intros acc Hb.
+      - cbn [app acc_u128]. now rewrite Hx.
+      - inversion Hpre as [|? ? Ha Hp]; subst. unfold valid in Ha. cbn [app acc_u128].
+        destruct (to_digit radix a) as [d|] eqn:Ed; [|contradiction].
+        pose proof (to_digit_lt _ _ _ Ed) as Hd.
+        cbn [length] in Hb. rewrite Nat2N.inj_succ, N.pow_succ_r' in Hb.
+        assert (Hp' : 0 < radix ^ N.of_nat (length pre)) by (apply N.neq_0_lt_0, N.pow_nonzero; lia).
+        replace (u128_lim <=? acc * radix + d) with false by (symmetry; apply N.leb_gt; nia).
+        apply IH; [assumption|]. nia. }
+    rewrite E. cbn [obind]. split.
+    + intros H. injection H as <-. exists pre, (post ++ tl). fold t. rewrite <- Happ, Ehd, <- app_assoc.
+      repeat split; assumption.
+    + intros [pre2 [post2 [Et [Hp Hc]]]]. f_equal. f_equal. fold t in Et. rewrite <- Happ, Ehd, <- app_assoc in Et.
+      cbn [app] in Et. eapply Huniq; [exact Et| | | |]; assumption.
+Qed.
+
+(* 3. the exact path: at most 32 hexadecimal / 42 octal significant digits *)
+Theorem radix_value_exact : forall radix s, radix_ok radix -> s <> [] ->
+  Forall (valid radix) (trim_zeros s) ->
+  (length (trim_zeros s) <= N.to_nat (max_digits_128 radix))%nat ->
+  parse_num_radix radix s = Ok (f_of_N (value radix (trim_zeros s))) /\
+  value radix (trim_zeros s) < 2 ^ 128.
+Proof.
+  intros radix s Hr Hs Hv Hl. unfold parse_num_radix. destruct s as [|c0 s0]; [contradiction|].
+  set (t := trim_zeros (c0 :: s0)) in *.
+  rewrite (split_chars_short t _ Hl). cbn [fst snd].
+  destruct (first_chunk_ok radix t Hr Hv Hl) as [E B]. rewrite E. cbn [obind scan_rest fst snd scale].
+  assert (B128 : value radix t < 2 ^ 128).
+  { eapply N.lt_le_trans; [exact B|]. etransitivity; [|apply (chunk_bound radix Hr)].
+    apply N.pow_le_mono_r; [destruct Hr as [->| ->]; discriminate|lia]. }
+  split; [|exact B128].
+  assert (Hfin : f_is_finite (f_of_N (value radix t)) = true).
+  { unfold f_of_N. apply f_of_Z_finite_small. rewrite Z.abs_eq by lia.
+    change (2 ^ 128)%Z with (Z.of_N (2 ^ 128)). lia. }
+  rewrite Hfin. reflexivity.
+Qed.
